@@ -5,7 +5,7 @@
    Only statements + `exact` of lemmas proved in Lower/Opt2*.v, each followed by Print Assumptions. *)
 From Coq Require Import List ZArith Bool.
 Import ListNotations.
-From DDP Require Import Lower.Opt2 Lower.Opt2Base Lower.Opt2Copy Lower.Opt2CopyThms Lower.Opt2Witness.
+From DDP Require Import Lower.Opt2 Lower.Opt2Base Lower.Opt2Copy Lower.Opt2CopyThms Lower.Opt2Witness Lower.Opt2Safe Lower.Opt2ElideThm.
 
 (* copy_noninterference.  Sep X st: every variable that holds a Text/list holds a live buffer no
    other variable, temporary or other holder (X) shares.  Executing ANY single statement in copy
@@ -100,6 +100,30 @@ Theorem C08_elision_sound_refuted_witnesses :
   run_elide 50 w_recursion <> run_copy 50 w_recursion.
 Proof. exact elision_sound_refuted_each. Qed.
 Print Assumptions C08_elision_sound_refuted_witnesses.
+
+(* elision_sound_partial.  `elide_safe p` (Lower/Opt2Safe.v, a boolean computed from the program and
+   the analysis table) says: the table is consistent (no parameter judged constant is assigned, used
+   as a destination, or passed by Referenz to a parameter that may be written), declarations do not
+   shadow parameters or globals, and at every call no elided argument `x` can be the storage of a
+   Referenz argument of the same call that the callee may write, nor a global the callee (or its
+   callees) may write, nor itself a Referenz parameter of the caller.  Under it the -O2 elision does
+   not change the behaviour, for every program and every fuel. *)
+Theorem C08_elision_sound_partial :
+  forall fuel p, elide_safe p = true -> run_elide fuel p = run_copy fuel p.
+Proof. exact elision_sound_partial. Qed.
+Print Assumptions C08_elision_sound_partial.
+
+(* the side condition is not vacuous: a program in which the copy of a variable IS elided satisfies it,
+   and all four refutation witnesses violate it *)
+Example C08_elision_partial_nonvacuous :
+  elide_safe ok_elided = true /\ analyse (pfuns ok_elided) = [[true; false]] /\
+  run_elide 50 ok_elided = Ok [OSeq [97%Z; 98%Z]; OSeq [97%Z; 98%Z]; OSeq [117%Z; 97%Z; 98%Z]].
+Proof. exact ok_elided_facts. Qed.
+
+Example C08_witnesses_violate_side_condition :
+  elide_safe w_same_var = false /\ elide_safe w_same_var_inplace = false /\
+  elide_safe w_global = false /\ elide_safe w_recursion = false.
+Proof. repeat split; vm_compute; reflexivity. Qed.
 
 (* non-vacuity of the hypotheses: a state with two holders of one value satisfies Sep, and the
    statements of the theorems run *)
